@@ -109,7 +109,10 @@ func NewInterceptingListener(
 		baseTlsConf:                  config.BaseTlsConfiguration,
 		fetchCredsFn:                 config.FetchCredsFunc,
 		generateServerCertificatesFn: config.GenerateServerCertificatesFunc,
-		options:                      config.Options,
+		// Clip the capacity: handshakes append per-connection options to this
+		// slice concurrently, which must never write into the caller's (and
+		// each other's) backing array
+		options: config.Options[:len(config.Options):len(config.Options)],
 	}
 
 	if l.fetchCredsFn == nil {
